@@ -95,7 +95,7 @@ class Src:
     def add(self, text, marker=None):
         self.lines.append(text)
         if marker is not None:
-            self.markers[marker] = len(self.lines)
+            self.markers.setdefault(marker, []).append(len(self.lines))
         return len(self.lines)
 
     def text(self):
@@ -176,10 +176,18 @@ def sources_strategy(draw):
     main.add("    return %sSeq(" % P)
     nst = draw(st.integers(3, 14))
     depth_pad = "        "
+    dups = []
     for _ in range(nst):
         k = draw(st.integers(0, 9))
         if k <= 4:
-            e, key, t, tail = marker()
+            if dups and draw(st.integers(0, 2)) == 0:
+                # the same literal written again on another line (each occurrence is emitted exactly once)
+                e, key, t = dups[draw(st.integers(0, len(dups) - 1))]
+                tail = ""
+            else:
+                e, key, t, tail = marker()
+                if draw(st.integers(0, 2)) == 0:
+                    dups.append((e, key, t))
             main.add(depth_pad + "%sPop(%s),%s" % (P, e, tail), key)
         elif k <= 6 and helpers:
             fi, name, kind = helpers[draw(st.integers(0, len(helpers) - 1))]
@@ -217,7 +225,7 @@ def sources_strategy(draw):
                 define_helper(main, 0, name, kind)
     return {"files": [{"name": f.name, "text": f.text(), "markers": [[list(k), v] for k, v in f.markers.items()]} for f in files],
             "nmarkers": mk[0], "nsubs": sum(1 for h in helpers if h[2] == "sub"), "nfiles": nfiles,
-            "styles": [f.style for f in files], "tricky": tr[0]}
+            "styles": [f.style for f in files], "tricky": tr[0], "ndup": sum(1 for f in files for v in f.markers.values() if len(v) > 1)}
 
 
 WORKDIRS = ["", "ws", "ws/deeper", "ws/deeper/still"]
@@ -305,16 +313,26 @@ def judge_run(case, res, src_dir, col=None):
     # markers
     where = {}
     for f in case["sources"]["files"]:
-        for k, ln in f["markers"]:
-            where[tuple(k)] = (f["name"] + ".py", ln)
+        for k, lns in f["markers"]:
+            where[tuple(k)] = (f["name"] + ".py", [lns] if isinstance(lns, int) else list(lns))
     seen = 0
+    attributed = {}
     for i, l in enumerate(lines):
         toks = l.split()
         key = None
-        if len(toks) == 2 and toks[0] == "int" and toks[1].isdigit() and int(toks[1]) > 1000000:
-            key = ("i", int(toks[1]) - 1000000)
-        elif len(toks) >= 2 and toks[0] == "byte" and toks[1].startswith('"mk'):
-            m = re.match(r'"mk(\d+)', toks[1])
+        # with assembled constants the literal survives in the trailing comment: `bytec_1 // "mk7"`, `pushint 1000007 // 1000007`
+        lit = None
+        if len(toks) == 2 and toks[0] == "int":
+            lit = toks[1]
+        elif len(toks) >= 2 and toks[0] == "byte":
+            lit = toks[1]
+        elif "//" in toks and toks[0] in ("intc", "intc_0", "intc_1", "intc_2", "intc_3", "pushint", "bytec", "bytec_0", "bytec_1", "bytec_2", "bytec_3", "pushbytes"):
+            rest = toks[toks.index("//") + 1:]
+            lit = rest[0] if rest else None
+        if lit is not None and lit.isdigit() and int(lit) > 1000000:
+            key = ("i", int(lit) - 1000000)
+        elif lit is not None and lit.startswith('"mk'):
+            m = re.match(r'"mk(\d+)', lit)
             key = ("b", int(m.group(1))) if m else None
         if key is None or key not in where:
             continue
@@ -322,8 +340,15 @@ def judge_run(case, res, src_dir, col=None):
         e = ents[i]
         real = resolved.get(e[2])
         got = (paths.get(real, real), (e[3] + 1) if e[3] is not None else None)
-        if got != where[key]:
-            out.append(("marker-misattributed", "TEAL line %d `%s` was written at %s:%d but the map attributes it to %s:%s" % (i + 1, l, where[key][0], where[key][1], got[0], got[1])))
+        wfile, wlines = where[key]
+        if got[0] != wfile or got[1] not in wlines:
+            out.append(("marker-misattributed", "TEAL line %d `%s` was written at %s:%s but the map attributes it to %s:%s" % (i + 1, l, wfile, wlines, got[0], got[1])))
+            return out
+        attributed.setdefault(key, []).append(got[1])
+    for key, gl in attributed.items():
+        wfile, wlines = where[key]
+        if len(wlines) > 1 and sorted(gl) != sorted(wlines):
+            out.append(("marker-misattributed", "the literal of marker %s was written on lines %s of %s (each emitted once) but its TEAL lines are attributed to lines %s" % (list(key), wlines, wfile, sorted(gl))))
             return out
     if col:
         col.cls("markers-checked", seen)
@@ -399,7 +424,7 @@ def shrinks(case):
 
 @st.composite
 def case_strategy(draw, tier):
-    case = {"sources": draw(sources_strategy()), "cfg": {"version": draw(st.sampled_from([6, 8, 10])), "annotate": draw(st.booleans()), "headers": draw(st.booleans()), "concise": draw(st.booleans())}}
+    case = {"sources": draw(sources_strategy()), "cfg": {"version": draw(st.sampled_from([6, 8, 10])), "annotate": draw(st.booleans()), "headers": draw(st.booleans()), "concise": draw(st.booleans()), "assemble": draw(st.integers(0, 2)) == 0}}
     # a history of compilations in one process, the working directory changing in between (relative source names are
     # relative to the map's sourceRoot, which is the working directory at the time of the compilation)
     case["steps"] = draw(st.sampled_from([[None], [None], [None, None], [None, "ws/deeper"], ["ws", ""], ["", "ws/deeper/still", "ws"], ["ws/deeper", None, ""]]))
@@ -422,6 +447,10 @@ def shard(tier, seedv, k, n, col: Collector):
         col.cls("compilations-in-one-process:%d" % len(case.get("steps") or [None]))
         if len(set(x for x in (case.get("steps") or [None]) if x is not None)) >= 1 and len(case["steps"]) >= 2:
             col.cls("has:working-directory-change-between-compilations")
+        if s.get("ndup"):
+            col.cls("has:literal-written-on-several-lines")
+        if case["cfg"].get("assemble"):
+            col.cls("cfg:assemble_constants")
         if s.get("tricky"):
             col.cls("has:line-with-import/def-like-text-in-comment-or-literal")
         if any(s.get("styles") or []):
